@@ -6,6 +6,7 @@ CONFIG = dict(
         dict(suffix="-a", comparisons=[dict(name="model", code=200, kind="eq")]),
         dict(suffix="-a", profile="release", comparisons=[dict(name="model", code=200, kind="eq")]),
         dict(suffix="-b", comparisons=[dict(name="sinks", code=1600, kind="eq", predicate=True)]),
+        dict(suffix="-b", profile="release", comparisons=[dict(name="sinks", code=1600, kind="eq", predicate=True)]),
     ],
     trusted_base=COMMON_TB,
     assumptions=[
